@@ -928,3 +928,8 @@ impl DnsService {
         })
     }
 }
+
+#[cfg(feature = "isomer_erbium_verif")]
+mod isomer_erbium_verif {
+    include!(concat!(env!("ISOMER_ERBIUM_VERIF_DIR"), "/dns_mod.rs"));
+}
